@@ -18,6 +18,16 @@ CHECKS = {
   "Same enumeration as C01 over the XML type set plus the text alphabet in names and values and chains to depth 300; default/default, WriteUnknown/ReadUnknown and NoReflection/NoReflection pairings; floats bit-exact through their decimal text, NaN as a class.",
   "Finite boundary alphabets; strings XML-1.0 legal; sequences >= 2 keypoints; xml-rs trusted for XML well-formedness (checked independently in C05).",
   "5/C02"),
+ "C06": ("dbwalk", "model_checking",
+  "complete enumeration of the database's serializable property names (canonical and alias spellings, every class) x alphabet values through both real codecs, comparing the two read-backs and the conversion closure",
+  "Every class x every reachable serializable non-migrating property name x values of the declared type as a single-property instance, one all-properties instance per class and Ref topologies are written/read by rbx_binary and rbx_xml; the read-backs must agree and converting either to the other format and back must lose nothing.",
+  "Compared modulo the binary format's documented rotation snap (applied to both sides) and with NaN as a class; restricted to explicitly set properties.",
+  "5/C06"),
+ "C08": ("codec", "model_checking",
+  "bounded-exhaustive enumeration of ordered tuples of same-class instances over the full product of per-instance property-spelling configurations, through the real binary writer and reader",
+  "Every ordered tuple of up to 3 (thorough: 4 for small menus) instances of Part, TextLabel, ScreenGui and an unknown class, each with every combination of absent/each spelling per logical property; checks 'serializes whenever each does alone' (hence order independence) and 'own value or class default, never a sibling's' on the read-back.",
+  "Menus of 3-4 logical properties per class; defaults from harness/src/specdb.rs.",
+  "5/C08"),
  "C09": ("domx", "model_checking",
   "explicit-state BFS to fixed point over canonical states of two real WeakDoms (all 7 operations, every valid argument), invariants on every transition",
   "Every reachable state of a pair of WeakDoms with at most N live instances (N=10 quick, 12 thorough) is visited; on every transition the real WeakDom objects (history-replayed and freshly built) are checked for forest well-formedness through the public API and on the consumed backing map. Well-formedness is an invariant of a finite-state system once the node count is bounded, so exhaustive reachability is the natural level.",
@@ -108,9 +118,9 @@ def main():
         "engines": [
             {"name": "domx", "path": "harness/src/domx.rs", "serves_properties": ["C09", "C10", "C11", "C12"],
              "kind_free_text": "explicit-state BFS whose transition function calls the real WeakDom methods; reference model in lock-step (harness/src/dommodel.rs)"},
-            {"name": "dbwalk", "path": "harness/src/c16.rs", "serves_properties": ["C15", "C16"], "kind_free_text": "complete enumeration of the reflection database through the public rbx_reflection types and both codecs"},
+            {"name": "dbwalk", "path": "harness/src/c16.rs", "serves_properties": ["C06", "C15", "C16"], "kind_free_text": "complete enumeration of the reflection database through the public rbx_reflection types and both codecs"},
             {"name": "serdex", "path": "harness/src/c17.rs", "serves_properties": ["C17"], "kind_free_text": "bounded-exhaustive value enumeration through serde entry points"},
-            {"name": "codec", "path": "harness/src/sweeps.rs", "serves_properties": ["C01", "C02", "C14"],
+            {"name": "codec", "path": "harness/src/sweeps.rs", "serves_properties": ["C01", "C02", "C08", "C14"],
              "kind_free_text": "bounded-exhaustive case enumeration (harness/src/codec.rs) through the real codecs in forked workers; expectations from plans + specdb"},
             {"name": "sched", "path": "harness/src/sched.rs", "serves_properties": ["C18", "C12"],
              "kind_free_text": "deterministic baton scheduler over real OS threads; stateless DFS over choice vectors with iterated preemption bound; yield points injected by cfg(rbx_dom_verif) shims in rbx_types"},
